@@ -16,7 +16,9 @@ RULE = ("time-limited envs: cases = (env, entry, T in {1,2,3,7,default/None}, ke
         "played in env(T+5), the concrete actions are replayed in env(T); step types must agree before step T, "
         "env(T) must return LAST at step T exactly and env(T+5) at T+5; non-trivial = episodes that survive to step "
         "T; horizon envs: first LAST no later than the structural bound computed from the reset state, non-trivial "
-        "= episodes of >= 2 steps; distinct by (env, entry, T, key)")
+        "= episodes of >= 2 steps; distinct by (env, entry, T, key); sweep batches (counters sweep_*) screen 10^2..4*10^3 "
+        "scripted-policy episodes per env on the device (both twins in one scan / fixed structural bound) and re-judge "
+        "flagged episodes with the same twin / horizon code")
 ASSUMPTIONS = [
     "the time limit influences nothing but termination (the twin with T+5 is the reference for 'other reasons')",
     "documented defaults: Maze/Cleaner None -> rows*cols, PacMan None -> 1000",
@@ -264,13 +266,13 @@ def run_sweep(item, seed):
                     kw = [int(kws[e][0]), int(kws[e][1])]
                     case = {"kind": "time", "env": env, "entry": entry, "T": T, "T_arg": T, "key": kw,
                             "actions": [np.asarray(a).tolist() for a in acts[e]], "extra": None}
-                    before = len(ctx.failures)
+                    before = sum(f["hits"] for f in ctx.failures.values())
                     with ctx.guard(env, case, size=10**6):
                         tl, ts_, _, expl = twin(ctx, env, entry, T, T, kw, actions=case["actions"])
                         for o, s, m in judge(env, T, tl, ts_, expl)[0]:
                             ctx.fail(o, env, s, m + f" [entry={entry} key={kw}]", case, size=len(case["actions"]))
                     ctx.count("sweep_flagged")
-                    if len(ctx.failures) == before:
+                    if sum(f["hits"] for f in ctx.failures.values()) == before:
                         ctx.count("sweep_unconfirmed")
                 if len(ctx.samples) < 2:
                     ctx.sample({"env": env, "entry": entry, "T": T, "sweep_base_key": list(key), "salt": salt,
@@ -293,7 +295,7 @@ def run_sweep(item, seed):
                     kw = [int(kws[e][0]), int(kws[e][1])]
                     case = {"kind": "horizon", "env": env, "entry": entry, "key": kw,
                             "actions": [np.asarray(a).tolist() for a in acts[e]]}
-                    before = len(ctx.failures)
+                    before = sum(f["hits"] for f in ctx.failures.values())
                     with ctx.guard(env, case, size=10**6):
                         res = horizon_episode(b, kw, actions=case["actions"])
                         if not res["ended"] and res["steps"] > res["bound"]:
@@ -301,7 +303,7 @@ def run_sweep(item, seed):
                                      f"bound={res['bound']} steps played={res['steps']} [entry={entry} key={kw}]", case,
                                      size=len(case["actions"]))
                     ctx.count("sweep_flagged")
-                    if len(ctx.failures) == before:
+                    if sum(f["hits"] for f in ctx.failures.values()) == before:
                         ctx.count("sweep_unconfirmed")
                 if len(ctx.samples) < 2:
                     ctx.sample({"env": env, "entry": entry, "bound": bound, "sweep_base_key": list(key), "salt": salt,
